@@ -229,7 +229,7 @@ theorem loop_step (N : Int) (j : Nat) (s : St) (u : Tok) (h : LoopAt j s u) (v :
     rw [a1s]
     simp [live_eq a1 _ a1c.parked a1c.pg a1c.ig, a1p, a1s, hu, inScope_U_U]
   have hgo : Goes (loopProc N) u.node .sub "-" "X" := by rw [hu]; exact u_goes N
-  rw [rw_go _ _ (by decide) a1 _ _ (settle_return _ a1 u _ _ (noIncl N) hfind hgo)]
+  rw [rw_go _ _ (by decide) a1 _ _ (settle_return _ a1 u _ _ (noIncl N) hfind hgo a1c.parked)]
   generalize hR : returned (loopProc N) a1 u = a2
   have a2c : Calm a2 := by
     subst hR
